@@ -73,8 +73,9 @@ func keysOf(b *clientpb.Batch) []cmdKey {
 }
 
 type c15Op struct {
-	Kind byte // 'A' add, 'P' proposed, 'G' get
+	Kind byte // 'A' add, 'P' proposed, 'Q' proposed with a two-command batch, 'G' get, 'X' get with a cancelled context
 	K    cmdKey
+	K2   cmdKey
 }
 
 func (o c15Op) String() string {
@@ -83,6 +84,9 @@ func (o c15Op) String() string {
 	}
 	if o.Kind == 'X' {
 		return "Gcancelled"
+	}
+	if o.Kind == 'Q' {
+		return fmt.Sprintf("P[(%d,%d),(%d,%d)]", o.K.C, o.K.S, o.K2.C, o.K2.S)
 	}
 	return fmt.Sprintf("%c(%d,%d)", o.Kind, o.K.C, o.K.S)
 }
@@ -104,6 +108,11 @@ func c15RunSeq(r *vbase.Result, batch int, ops []c15Op) bool {
 		case 'P':
 			cc.Proposed(&clientpb.Batch{Commands: []*clientpb.Command{{ClientID: op.K.C, SequenceNumber: op.K.S}}})
 			ref.proposed([]cmdKey{op.K})
+			sawP = true
+		case 'Q':
+			// a proposed batch of two commands (blocks of other leaders hold several commands, possibly some that are marked already)
+			cc.Proposed(&clientpb.Batch{Commands: []*clientpb.Command{{ClientID: op.K.C, SequenceNumber: op.K.S}, {ClientID: op.K2.C, SequenceNumber: op.K2.S}}})
+			ref.proposed([]cmdKey{op.K, op.K2})
 			sawP = true
 		case 'X':
 			// a Get whose context is already cancelled (a view change racing the request): it may return the context error or,
@@ -181,10 +190,12 @@ func c15Seq(p vbase.Params, r *vbase.Result) {
 	var alpha []c15Op
 	for c := uint32(1); c <= 2; c++ {
 		for s := uint64(1); s <= 2; s++ {
-			alpha = append(alpha, c15Op{'A', cmdKey{c, s}}, c15Op{'P', cmdKey{c, s}})
+			alpha = append(alpha, c15Op{Kind: 'A', K: cmdKey{c, s}}, c15Op{Kind: 'P', K: cmdKey{c, s}})
 		}
 	}
 	alpha = append(alpha, c15Op{Kind: 'G'}, c15Op{Kind: 'X'})
+	// two-command proposed batches: an (often already marked) command of client 1 followed by one of client 2, and the reverse
+	alpha = append(alpha, c15Op{Kind: 'Q', K: cmdKey{1, 1}, K2: cmdKey{2, 2}}, c15Op{Kind: 'Q', K: cmdKey{2, 1}, K2: cmdKey{1, 2}})
 	idx := 0
 	for batch := 1; batch <= 3; batch++ {
 		for l := 1; l <= maxLen; l++ {
@@ -225,7 +236,7 @@ func c15Seq(p vbase.Params, r *vbase.Result) {
 		next := map[uint32]uint64{}
 		for k := range ops {
 			c := uint32(rng.Range(1, 3))
-			switch rng.Weighted([]int{6, 2, 3, 1}) {
+			switch rng.Weighted([]int{6, 2, 3, 1, 2}) {
 			case 0:
 				s := next[c] + 1
 				if rng.Chance(1, 5) {
@@ -233,13 +244,16 @@ func c15Seq(p vbase.Params, r *vbase.Result) {
 				} else {
 					next[c] = s
 				}
-				ops[k] = c15Op{'A', cmdKey{c, s}}
+				ops[k] = c15Op{Kind: 'A', K: cmdKey{c, s}}
 			case 1:
-				ops[k] = c15Op{'P', cmdKey{c, uint64(rng.Range(1, 6))}}
+				ops[k] = c15Op{Kind: 'P', K: cmdKey{c, uint64(rng.Range(1, 6))}}
 			case 2:
 				ops[k] = c15Op{Kind: 'G'}
-			default:
+			case 3:
 				ops[k] = c15Op{Kind: 'X'}
+			default:
+				c2 := uint32(rng.Range(1, 3))
+				ops[k] = c15Op{Kind: 'Q', K: cmdKey{c, uint64(rng.Range(1, 6))}, K2: cmdKey{c2, uint64(rng.Range(1, 6))}}
 			}
 		}
 		if !c15RunSeq(r, batch, ops) && r.NViolations() > 2 {
